@@ -395,6 +395,11 @@ def name_block_error(line):
         return "getnext reports a key name of %s bytes but the block it hands out holds only %s bytes" % (want, have)
     if "!name-not-terminated" in line:
         return "the name handed out by getnext is not NUL-terminated"
+    j = line.find("!process-address@")
+    if j >= 0:
+        return ("the image holds a process address at byte offset %s of the region (the harness fills the stack with the "
+                "address of one of its objects before every call: the library copied an uninitialised local into the "
+                "image)" % line[j + 17:].split()[0])
     if "!watchdog" in line:
         return "the operation did not return (watchdog of the harness: endless loop)"
     return None
@@ -757,6 +762,18 @@ def scenario_streams(rng, tier):
         ops += [op_putstr(b"", b""), op_getstr(b""), op_getstr(b"absent"), op_srm(b"")]
         ops += [op_put(b"", b"x"), op_put(b"k", b""), op_get(b""), op_rm(b""), op_inv(b"k")]
         sts.append(Stream("scenario:cap%d" % cap, ops, history=True))
+    # re-put with a value RELATED to the stored one (seed C06-m9): stored lengths around the slot payload
+    # sizes x new value = every prefix length around them / identical / extended / last byte changed, then a
+    # put that needs exactly the slots the replacement must have released
+    ops = []
+    for ln in (1, 31, 32, 33, 64, 97, 98, 99, 100, 164, 165):
+        base = mkval(rng, ln)
+        news = {base[:n] for n in (1, 16, 31, 32, 33, 66, 97, 98, 99, ln - 1) if 0 < n < ln}
+        news |= {base, base + b"x", base[:-1] + bytes([base[-1] ^ 0x80]), base[:32] + mkval(rng, 66)}
+        for nv in sorted(news):
+            ops += [op_init(6), op_put(b"k", base), op_put(b"k", nv), op_get(b"k"), "size",
+                    op_put(b"fill", mkval(rng, 32 + 66 * 3)), op_get(b"fill"), op_get(b"k"), "walk", op_rm(b"k"), "size"]
+    sts.append(Stream("reput-related-values", ops, history=True))
     # init boundaries
     ops = ["init %d" % ms for ms in (1, HDR, HDR + SLOT, HANDLE, HANDLE + 1, memsize(2) - 1, memsize(2), memsize(2) + 1, memsize(3) + 83)]
     ops2 = []
@@ -825,11 +842,29 @@ def relocation_streams(rng, tier):
 
 def random_history(rng, cap, nops, keys, val_lens, p_put=0.5):
     ops = [op_init(cap, slack=rng.choice([0, 0, 1, 83]))]
+    last = {}    # the value most recently offered under a key (stored or not: only used to derive related values)
     for _ in range(nops):
         r = rng.random()
         k = rng.choice(keys)
         if r < p_put:
-            ops.append(op_put(k, mkval(rng, rng.choice(val_lens))))
+            v = mkval(rng, rng.choice(val_lens))
+            if k in last and rng.random() < 0.2:
+                # a value RELATED to the one offered before: the same bytes, a prefix that ends at / next to a slot
+                # boundary, an extension, one byte changed (a "nothing changed" fast path must look at all of it)
+                o = last[k]
+                c = rng.randrange(5)
+                if c == 0:
+                    v = o
+                elif c == 1 and o:
+                    v = o[:rng.choice([1, 31, 32, 33, 97, 98, 99, max(1, len(o) - 1)])]
+                elif c == 2:
+                    v = o + mkval(rng, rng.choice([1, 32, 66, 67]))
+                elif c == 3 and o:
+                    j = rng.randrange(len(o)); v = o[:j] + bytes([o[j] ^ 1]) + o[j + 1:]
+                else:
+                    v = (o + o)[:rng.choice(val_lens)]
+            last[k] = v
+            ops.append(op_put(k, v))
         elif r < p_put + 0.17:
             ops.append(op_rm(k))
         elif r < p_put + 0.27:
